@@ -48,6 +48,9 @@ class W:
                 f1.append(f"  public :: {n}")
             elif v == -2:
                 f1.append(f"  private :: {n}")
+        f1 += ["  interface", "    subroutine ex()"]
+        self.decl["m1:ex"] = (f"{R}/m1.f90", len(f1) - 1, f1[-1].index("ex()"))
+        f1 += ["    end subroutine ex", "  end interface"]
         f1.append("contains")
         f1.append("  subroutine c()")
         self.decl["m1:c"] = (f"{R}/m1.f90", len(f1) - 1, f1[-1].index("c()"))
@@ -76,6 +79,8 @@ class W:
             self.sites.append((f"{R}/main.f90", len(fm) - 1, 6, n, "main"))
         fm.append("  call c()")
         self.sites.append((f"{R}/main.f90", len(fm) - 1, 7, "c", "main"))
+        fm.append("  call ex()")
+        self.sites.append((f"{R}/main.f90", len(fm) - 1, 7, "ex", "main"))
         fm += ["contains", "  subroutine inner()"]
         if self.local_a in (2, 3):
             fm.append("    real :: a")
@@ -100,7 +105,7 @@ class W:
 
     def exports_m1(self):
         out = {}
-        for n, v in (("a", self.vis_a), ("b", self.vis_b), ("c", self.vis_c)):
+        for n, v in (("a", self.vis_a), ("b", self.vis_b), ("c", self.vis_c), ("ex", 0)):
             if self._public(v, self.m1_private):
                 out[n] = f"m1:{n}"
         return out
@@ -146,7 +151,7 @@ class W:
     def resolve(self, scope: str, name: str):
         """-> entity id, None (no accessible declaration), or 'AMBIGUOUS' (program not standard conforming)"""
         if scope == "m1:c":
-            return {"a": "m1:a", "b": "m1:b", "c": "m1:c"}.get(name)
+            return {"a": "m1:a", "b": "m1:b", "c": "m1:c", "ex": "m1:ex"}.get(name)
         if scope == "inner":
             if name == "a" and self.local_a in (2, 3):
                 return "inner:a"
